@@ -161,6 +161,42 @@ func runC18(c *Ctx) {
 			call(ins, outs)
 		})
 	}
+	// inputs spending many outputs of ONE previous transaction: the tie on the hash is broken by the index as a NUMBER
+	// (not as decimal text, not by its little-endian bytes)
+	idxAlpha := []uint32{2, 9, 10, 11, 99, 100, 255, 256, 257, 1000, 65535, 65536, 1 << 24, 1<<24 + 1}
+	for set := 0; set < c.Pick(6, 40); set++ {
+		n := 3 + set%2
+		var inEl []interface{}
+		h := mkHash(5 + 6*set)
+		for _, j := range r.Perm(len(idxAlpha))[:n] {
+			inEl = append(inEl, map[string]interface{}{"hash": ints(h), "idx": w32(idxAlpha[j]), "script": ints([]byte{byte(j)}), "seq": w32(uint32(j))})
+		}
+		oe := []interface{}{map[string]interface{}{"value": ints(mkVal(1)), "script": ints([]byte{1})}}
+		permute(n, func(p []int) {
+			var ins []interface{}
+			for _, i := range p {
+				ins = append(ins, inEl[i])
+			}
+			call(ins, oe)
+		})
+	}
+	// outputs with equal amounts and scripts of different lengths that are not prefixes of each other
+	for set := 0; set < c.Pick(4, 24); set++ {
+		scs := [][]byte{{0x76, 0xa9, 0x14, 1, 2, 3}, {0xa9, 0x14, 9}, {0x76}, {0xa9, 0x14, 9, 0}, {0x00, 0xff, 0xff, 0xff, 0xff}, {0xef, 1}, {0xee}}
+		var outEl []interface{}
+		for _, j := range r.Perm(len(scs))[:4] {
+			outEl = append(outEl, map[string]interface{}{"value": ints(mkVal(2 + set%3)), "script": ints(scs[j])})
+		}
+		outEl = append(outEl, map[string]interface{}{"value": ints(mkVal(0)), "script": ints([]byte{0xff})})
+		ie := []interface{}{map[string]interface{}{"hash": ints(mkHash(1)), "idx": w32(0), "script": ints([]byte{}), "seq": w32(0)}}
+		permute(len(outEl), func(p []int) {
+			var outs []interface{}
+			for _, i := range p {
+				outs = append(outs, outEl[i])
+			}
+			call(ie, outs)
+		})
+	}
 	// random transactions up to hundreds of elements
 	for k := 0; k < c.Pick(60, 600); k++ {
 		ni, no := r.Intn(12), r.Intn(12)
@@ -169,7 +205,7 @@ func runC18(c *Ctx) {
 		}
 		var ins, outs []interface{}
 		for i := 0; i < ni; i++ {
-			ins = append(ins, map[string]interface{}{"hash": ints(mkHash(r.Intn(30))), "idx": w32(uint32(r.Intn(4))), "script": ints(randBytes(r, r.Intn(4))), "seq": w32(r.Uint32())})
+			ins = append(ins, map[string]interface{}{"hash": ints(mkHash(r.Intn(30))), "idx": w32([]uint32{0, 1, 2, 3, 9, 10, 100, 256, 65536}[r.Intn(9)]), "script": ints(randBytes(r, r.Intn(4))), "seq": w32(r.Uint32())})
 		}
 		for i := 0; i < no; i++ {
 			sc := scripts[r.Intn(len(scripts))]
